@@ -198,6 +198,8 @@ class SymEval:
                 return NONE
             if "::" in p and p.split("::")[-1][:1].isupper():
                 return ("enum", "::".join(p.split("::")[-2:]), [])
+            if "::" in p or self.h.resolve_fn(p) is not None:
+                return ("fnref", p)         # a function or method named as a value (`.map(Type::method)`)
             self.fail("unknown name %s" % p)
         if k in ("ref",):
             return self.ev(e[2], env)
@@ -670,6 +672,19 @@ class SymEval:
         if isinstance(clo, tuple) and clo[0] == "fnref":
             r = self.h.call(clo[1], args, None)
             if r is NotImplemented:
+                fn = self.h.resolve_fn(clo[1])
+                if fn is not None and self.depth < 6:
+                    ps = [q[0] for q in fn["sig"]["params"] if q[0] != "self"]
+                    if len(ps) == len(args):
+                        self.depth += 1
+                        self.note_ret(fn)
+                        try:
+                            try:
+                                return self.block(fn["body"], Scope(dict(zip(ps, args))))
+                            except Return as r_:
+                                return r_.v
+                        finally:
+                            self.depth -= 1
                 self.fail("call of function reference %s" % clo[1])
             return r
         if not (isinstance(clo, tuple) and clo[0] == "closure"):
@@ -796,6 +811,13 @@ class SymEval:
                 return ("list", out)
             if m == "rev" and not args:
                 return ("list", list(reversed(items)))
+            if m == "fold" and len(args) == 2:
+                acc = args[0]
+                for x in items:
+                    acc = self.apply(args[1], [acc, x])
+                return acc
+            if m == "sum" and not args and all(isinstance(x, int) for x in items):
+                return sum(items)
             if m == "count" and not args:
                 return len(items)
             if m in ("find", "position", "any", "all", "find_map", "filter") and len(args) == 1:
@@ -978,6 +1000,8 @@ class SymEval:
                 return ("list", [self.apply(args[0], [x]) for x in recv[1]])
             if m in ("iter", "into_iter"):
                 return ("list", recv[1])
+            if m in ("by_ref", "clone", "fuse"):
+                return recv
         if m == "copy_from_slice" and len(args) == 1 and e[1][0] == "index" and path_of(e[1][1]) in env:
             name = path_of(e[1][1])
             base = env[name]
@@ -1103,7 +1127,20 @@ class SymEval:
                         res = None
                 return res
             r = self.h.match_ts(v, pat, env, self)
-            return None if r is NotImplemented else r
+            if r is NotImplemented:
+                # an abstract value whose fields the hooks know: destructure through the field hook
+                res = True
+                for fld, sub in pat[2]:
+                    fv = self.h.field(v, fld, None)
+                    if fv is NotImplemented:
+                        return None
+                    r2 = self.match_pat(sub, fv, env)
+                    if r2 is False:
+                        return False
+                    if r2 is None:
+                        res = None
+                return res
+            return r
         if k == "p_path":
             name = "::".join(pat[1].split("::")[-2:])
             if pat[1].split("::")[-1] == "None":
